@@ -74,6 +74,10 @@ type c05Host struct {
 	stsMatch    bool
 	tlsa        int
 	dane        int
+	// the MX name is a DNSSEC-authenticated CNAME alias; TLSA records are looked
+	// up at the canonical name first (tlsaC), then under the MX name itself (tlsa)
+	cname bool
+	tlsaC int
 	// next-hop refusals (symbolic only in the permit-accounting harness of C11)
 	mailFail, rcptFail, dataFail bool
 }
@@ -111,10 +115,11 @@ var c05 struct {
 	dataEvents                          int
 	noObligation                        bool // C11 harness: permits only
 	hopFaults                           bool // next-hop MAIL/RCPT/DATA refusals are symbolic
+	cnames                              bool // MX hosts may be CNAME aliases
 }
 
 func c05HostByName(n string) *c05Host {
-	n = strings.TrimSuffix(n, ".")
+	n = strings.TrimPrefix(strings.TrimSuffix(n, "."), "canon.")
 	for _, h := range c05.hosts {
 		if h.name == n {
 			return h
@@ -342,6 +347,9 @@ func stubC05CheckCNAMEAD(e dns.ExtResolver, ctx context.Context, host string) (b
 	case tlsaInsecureA:
 		return false, host, nil
 	}
+	if h.cname {
+		return true, "canon." + host, nil
+	}
 	return true, host, nil
 }
 
@@ -353,7 +361,11 @@ func stubC05LookupCNAME(e dns.ExtResolver, ctx context.Context, host string) (bo
 //verif:stub (github.com/foxcpp/maddy/framework/dns.ExtResolver).AuthLookupTLSA @harness_C05_policy,harness_C11_remote,harness_C16_remote
 func stubC05LookupTLSA(e dns.ExtResolver, ctx context.Context, service, network, domain string) (bool, []dns.TLSA, error) {
 	h := c05HostByName(domain)
-	switch h.tlsa {
+	kind := h.tlsa
+	if strings.HasPrefix(domain, "canon.") {
+		kind = h.tlsaC
+	}
+	switch kind {
 	case tlsaLookupErr:
 		return false, nil, dns.RCodeError{Name: domain, Code: mdns.RcodeServerFailure}
 	case tlsaNotFound:
@@ -392,6 +404,42 @@ func stubC05VerifyDANE(recs []dns.TLSA, st tls.ConnectionState) (bool, error) {
 // ---------------------------------------------------------------------------
 // the obligation, from the statement and the world facts alone
 
+// what TLSA discovery for the host amounts to (RFC 7672 2.2.2: the canonical
+// name first; a lookup failure there defers; an authenticated non-empty RRset
+// there is used; otherwise the MX name itself is consulted)
+func c05DiscoveryFailed(h *c05Host) bool {
+	if h.tlsa == tlsaAddrErr {
+		return true
+	}
+	if h.tlsa == tlsaInsecureA {
+		return false
+	}
+	if h.cname {
+		if h.tlsaC == tlsaLookupErr {
+			return true
+		}
+		if h.tlsaC == tlsaRecords {
+			return false
+		}
+	}
+	return h.tlsa == tlsaLookupErr
+}
+
+func c05HasRecords(h *c05Host) bool {
+	if h.tlsa == tlsaAddrErr || h.tlsa == tlsaInsecureA {
+		return false
+	}
+	if h.cname {
+		if h.tlsaC == tlsaRecords {
+			return true
+		}
+		if h.tlsaC == tlsaLookupErr {
+			return false
+		}
+	}
+	return h.tlsa == tlsaRecords
+}
+
 func c05Obligation(m *c05Conn) {
 	msg := c05.msgs[c05.cur]
 	h := m.host
@@ -405,8 +453,8 @@ func c05Obligation(m *c05Conn) {
 		verifFail("C05.quarantined-message-relayed")
 	}
 	inForce := !(msg.override && c05.allowOverride)
-	daneUsable := c05.enDANE && h.tlsa == tlsaRecords && h.dane != daneNoUsable
-	daneAuth := c05.enDANE && enc && h.tlsa == tlsaRecords && h.dane == daneMatch
+	daneUsable := c05.enDANE && c05HasRecords(h) && h.dane != daneNoUsable
+	daneAuth := c05.enDANE && enc && c05HasRecords(h) && h.dane == daneMatch
 	auth := pkix || daneAuth
 	mxlvl := module.MXNone
 	if c05.enMTASTS && h.dom.sts != stsNone && h.stsMatch {
@@ -425,10 +473,10 @@ func c05Obligation(m *c05Conn) {
 			}
 		}
 		if c05.enDANE {
-			if h.tlsa == tlsaAddrErr || h.tlsa == tlsaLookupErr {
+			if c05DiscoveryFailed(h) {
 				verifFail("C05.sent-despite-tlsa-discovery-failure")
 			}
-			if h.tlsa == tlsaRecords && !enc {
+			if c05HasRecords(h) && !enc {
 				verifFail("C05.dane-records-but-no-tls")
 			}
 			if daneUsable && h.dane != daneMatch {
@@ -511,6 +559,10 @@ func c05World(nmx, ndom int) {
 			if c05.enDANE {
 				h.tlsa = nondetInt(p+"tlsa", 0, 5)
 				h.dane = nondetInt(p+"dane", 0, 2)
+				if c05.cnames {
+					h.cname = nondetBool(p + "cname")
+					h.tlsaC = nondetInt(p+"tlsaC", tlsaLookupErr, tlsaRecords)
+				}
 			} else {
 				h.tlsa = tlsaInsecureA
 			}
@@ -594,6 +646,7 @@ func harness_C05_policy() {
 	c05.clients = map[*smtp.Client]*c05Conn{}
 	c05.hosts = nil
 	c05.dataEvents = 0
+	c05.cnames = verifParam("cname", 0) == 1
 	c05World(nmx, verifParam("ndom", 1))
 	ndom := len(c05.doms)
 
@@ -645,7 +698,7 @@ func harness_C05_policy() {
 			// deferred, not bounced, when only TLSA discovery stands in the way
 			if nmx == 1 && ndom == 1 && c05.enDANE && !(msg.override && c05.allowOverride) && !msg.quarantine && !msg.requireTLS {
 				h := c05.hosts[0]
-				discoveryFailed := h.tlsa == tlsaAddrErr || h.tlsa == tlsaLookupErr
+				discoveryFailed := c05DiscoveryFailed(h)
 				stsRefuses := c05.enMTASTS && h.dom.sts == stsEnforce && !h.stsMatch
 				if discoveryFailed && !h.connFail && !stsRefuses && !(h.starttls && h.starttlsErr) {
 					if !exterrors.IsTemporary(rerr) {
